@@ -226,6 +226,7 @@ impl Request {
     ) -> Result<Option<()>, crate::Response> {
         use crate::Response;
 
+        #[cfg(ohkami_verif)] crate::__verif::emit("read-start", 0, 0);
         match stream.read(&mut *self.__buf__).await {
             Ok (0) => return Ok(None),
             Err(e) => return match e.kind() {
@@ -235,6 +236,8 @@ impl Request {
                     Response::InternalServerError()
                 })(e))
             },
+            #[cfg(ohkami_verif)]
+            Ok(n) => crate::__verif::emit("read", n, 0),
             _ => ()
         }
 
@@ -305,6 +308,7 @@ impl Request {
             #[cfg(feature="DEBUG")] println!("\n[read_payload] case: remaining_buf.is_empty() || remaining_buf[0] == 0\n");
 
             let mut bytes = vec![0; size].into_boxed_slice();
+            #[cfg(ohkami_verif)] crate::__verif::emit("read-exact-start", size, 0);
             stream.read_exact(&mut bytes).await.unwrap();
             CowSlice::Own(bytes)
 
@@ -322,6 +326,7 @@ impl Request {
             let mut bytes = vec![0; size].into_boxed_slice();
             unsafe {// SAFETY: Here size > remaining_buf_len
                 bytes.get_unchecked_mut(..remaining_buf_len).copy_from_slice(remaining_buf);
+                #[cfg(ohkami_verif)] crate::__verif::emit("read-exact-start", size - remaining_buf_len, 1);
                 stream.read_exact(bytes.get_unchecked_mut(remaining_buf_len..)).await.unwrap();
             }
             CowSlice::Own(bytes)
